@@ -106,10 +106,7 @@ Theorem C24_data_epoch : forall pe cur,
   select_epoch true pe cur = Ok cur /\
   (forall p, pe = Some p -> p + 1 < two64 ->
      select_epoch false pe cur = if cur <? p then Err m_epoch_lower else Ok (N.min cur (p + 1))).
-Proof.
-  intros pe cur. split; [apply select_epoch_genesis|].
-  intros p E H. subst pe. now apply select_epoch_spec.
-Qed.
+Proof. exact data_epoch. Qed.
 Print Assumptions C24_data_epoch.
 
 (* VerifyBlock succeeds iff the parent is known, the epochs are consistent, the verifier info of
